@@ -143,6 +143,11 @@ def _worker(arg):
     import importlib
 
     mod = importlib.import_module(modname)
+    # the library's behaviour must not depend on how verbose its logging is: every other job runs with the
+    # aioswitcher loggers at DEBUG (decided by the job itself, so a replay of the job sees the same level)
+    import logging
+
+    logging.getLogger("aioswitcher").setLevel(logging.DEBUG if khash(jsonable(job)) % 2 else logging.WARNING)
     try:
         r = mod.run_job(job)
         if r is None:
